@@ -205,7 +205,8 @@ pub fn gen_dataset(rng: &mut Rng, name: &str, cfg: &WorldCfg, st: &mut WorldStat
 
     let mut rows: Vec<Vec<Option<(X, X)>>> = vec![vec![None; nsym]; n];
     for s in 0..nsym {
-        let mut p = step * rng.range(cfg.min_price_steps.max(4), 800) as f64;
+        // one symbol in eight is a cheap share (a few steps): doubles are densest there
+        let mut p = if rng.one_in(8) { step * rng.range(cfg.min_price_steps.max(1), 15) as f64 } else { step * rng.range(cfg.min_price_steps.max(4), 800) as f64 };
         let spread_steps = if cfg.flat { 0 } else { rng.range(0, 3) };
         // late start / early end
         let mut first = 0usize;
